@@ -1,5 +1,5 @@
 (* C12 -- body size hints and the end-of-stream flag are truthful at every step. *)
-From HS Require Import Lib.Base Model.Body Proofs.BodyP Proofs.BodyRun.
+From HS Require Import Lib.Base Model.Body Model.Chunker Proofs.BodyP Proofs.BodyRun Proofs.ChunkerP.
 
 (* Bodies from serve (Once, ExactLen, Multipart) and from Body::from / Body::empty (Once) give an
    exact hint (body_hint is a number, lower = upper). At every point of every run that goes on to
@@ -35,6 +35,23 @@ Theorem c12_once : forall o, body_hint (BOnce o) = match o with Some d => lenN d
                              (body_eos (BOnce o) = true <-> o = None).
 Proof. intros [d|]; cbn; split; try reflexivity; split; congruence. Qed.
 
+(* the streaming body (chunker): lower bound = bytes queued (all of which will be delivered);
+   an upper bound is given only once the writer is gone, and then equals it *)
+Theorem c12_chunker_hint : forall s, CInv s ->
+  fst (chunker_hint s) = lenN (pending s) /\
+  (forall u, snd (chunker_hint s) = Some u -> u = lenN (pending s) /\ exists ready rb, c_st s = SOk ready rb true).
+Proof. exact chunker_hint_is_queue. Qed.
+(* it never says end-of-stream while chunks or an abort error are undelivered ... *)
+Theorem c12_chunker_not_early : forall s, CInv s -> chunker_eos s = true -> pending s = [] /\ c_st s <> SErr.
+Proof. exact eos_not_early. Qed.
+(* ... and once it does, every later poll is a clean end: no data, no error *)
+Theorem c12_chunker_eos_final : forall s w, CInv s -> chunker_eos s = true -> c_reader s = true ->
+  let '(s', r, wk) := cstep s (OPoll w) in r = RPoll (Some None) /\ chunker_eos s' = true.
+Proof. exact eos_then_only_end. Qed.
+
+Print Assumptions c12_chunker_hint.
+Print Assumptions c12_chunker_not_early.
+Print Assumptions c12_chunker_eos_final.
 Print Assumptions c12_hint_truthful_at_every_step.
 Print Assumptions c12_hint_upper_bound.
 Print Assumptions c12_eos_no_more_data.
